@@ -384,7 +384,7 @@ def c07(ctx):
 eng_prop("C08", ["upg"], nq=90)
 eng_prop("C11", ["poll"], nq=90)
 eng_prop("C12", ["life", "poll"])
-eng_prop("C18", ["flow"], nq=90)
+eng_prop("C18", ["flow"], extra=("reent",), nq=90)
 
 
 # ----------------------------------------------------------------------- C05
